@@ -75,6 +75,36 @@ PROPS["C10"] = _e1({
                          "equal_amounts_in_different_units": 300, "same_unit_ops": 10000, "single_unit_ops": 2000}},
 })
 
+OPS_DESC = ("every operator instance the model derives from the declared derivations (34 catalogue + 4 astronomical [f64] "
+            "+ 18 synthetic: for R=A*B: A*B, B*A, R/A, R/B; for R=A/B: A/B, R*B, B*R, A/R) x all unit pairs of its "
+            "operand types")
+
+PROPS["C04"] = _e1({
+    "rule": {"quick": OPS_DESC + " x (x, y) in V x small alphabet, in the four ownership forms (a op b, &a op b, a op &b, "
+                      "&a op &b: must agree bit for bit); the result amount in the unit the implementation chose is judged "
+                      "against the exact product / quotient of the reference-unit magnitudes; depth 2: the inverse operator "
+                      "instance applied to every result must bring back the left operand's magnitude within the composed "
+                      "bound. Decimal cases are admitted iff the magnitude precondition of C18 holds (filtered counts "
+                      "reported per clause). " + V_DESC,
+             "thorough": "as quick with (x, y) in V x V over the thorough alphabet"},
+    "floors": {"quick": {"operator_instances": 52, "operand_unit_pairs": 2500, "value_checked": 400000,
+                         "sensitive": 300000, "round_trips_checked": 300000}},
+})
+
+PROPS["C05"] = _e1({
+    "rule": OPS_DESC + " x operand amounts that put the result magnitude 1 % below, exactly onto and 1 % above EVERY unit "
+            "scale of the result type, each with its 2 representable neighbours on either side, with second operand "
+            "1 and 2 (thorough: also 0.5 and -4), plus zero, negative, below-smallest and above-largest magnitudes, plus "
+            "the small alphabet squared. Oracle = literal transcription of the statement, computed independently of the "
+            "selection code: sigma = scale(u_a) op scale(u_b) in the amount type from the reported scales; own linear "
+            "lookup; natural unit => unit of that scale and amount bit-identical to x op y; else largest eligible scale "
+            "<= exact magnitude (smallest eligible if none), eligible = SI-prefixed units iff the reference unit is "
+            "SI-prefixed; where exact and computed magnitude straddle a boundary either neighbour is accepted; units "
+            "compared by scale; reference-unit operands must give the reference unit itself",
+    "floors": {"quick": {"operator_instances": 52, "natural_cases": 100000, "fit_cases": 500000,
+                         "exactly_on_boundary": 1500, "ref_operand_cases": 10000}},
+})
+
 PROPS["C07"] = _e1({
     "rule": "the whole finite domain: every unit of every quantity type (14 catalogue types, 4 astronomical types under "
             "f64, synthetic types, AmountT) in both back-ends: name(), symbol(), si_prefix(), scale() against the "
